@@ -1164,6 +1164,134 @@ fn producer_data(p: &Producer, s: &SizeInfo) -> Option<Vec<u8>> {
     }
 }
 
+/// A foreign recurrence: one block (the neighbour, or the same block's phantom) defines a connection polynomial
+/// C(x) = prod (x - X_p) through v genuine errors; ANOTHER block gets e <= t errors at other positions whose
+/// syndromes obey C's recurrence sum_i c_i S_{j+i} = 0 on a chosen set J of rows (a prefix and a late window, all
+/// but a middle window, strided, arbitrary) and nowhere else. With |J| < e that is a linear solve; with |J| = e
+/// it is possible only for special position sets (a singular generalised Vandermonde matrix, about one set in
+/// 255), which are searched for. Within the radius: both blocks must be restored. Anything that carries a locator
+/// from one block to the next and verifies it on fewer rows than it should is led astray.
+fn foreign_recurrence_faults(ctx: &Ctx, rng: &mut Rng, s: &SizeInfo, faults: &mut Vec<Fault>) -> bool {
+    let t = s.t();
+    let k = s.k;
+    if t < 3 || !ctx.gf_ok[s.idx] {
+        return false;
+    }
+    let gf = &ctx.gf;
+    let (b_src, b_dst) = if s.blocks > 1 {
+        let d = rng.range(1, s.blocks - 1);
+        (d - 1, d)
+    } else {
+        (0, 0)
+    };
+    let nb_min = s.block_len(s.blocks - 1);
+    let v = if rng.chance(2, 3) { rng.range(1, 4.min(t - 1)) } else { rng.range(1, t - 1) };
+    let e = if s.blocks == 1 { (t - v).max(1) } else if rng.chance(1, 2) { t } else { rng.range(2, t) };
+    if v + e > nb_min || e < 2 {
+        return false;
+    }
+    // rows j (1-based) available: 1..=k-v
+    let nrows_avail = k - v;
+    let square = rng.chance(1, 2) && e <= nrows_avail;
+    let m = if square { e } else { rng.range(1, (e - 1).min(nrows_avail)) };
+    let rows: Vec<usize> = match rng.below(5) {
+        0 | 1 => {
+            // the first v rows and a window starting at row t+1 (what "verify a little at both ends" looks at)
+            let a = v.min(m);
+            let rest = m - a;
+            let start = (t + 1).min(nrows_avail + 1 - rest.max(1)).max(a + 1);
+            (1..=a).chain(start..start + rest).filter(|j| *j <= nrows_avail).collect()
+        }
+        2 => {
+            // everything except a middle window
+            let a = rng.range(0, m);
+            (1..=a).chain(nrows_avail - (m - a) + 1..=nrows_avail).collect()
+        }
+        3 => {
+            let d = rng.range(2, 3);
+            (0..m).map(|i| 1 + i * d).filter(|j| *j <= nrows_avail).collect()
+        }
+        _ => {
+            let mut r = rng.sample_distinct(nrows_avail, m);
+            r.sort();
+            r.into_iter().map(|x| x + 1).collect()
+        }
+    };
+    let m = rows.len();
+    if m == 0 {
+        return false;
+    }
+    let tries = if square { (4_000_000 / (e * e * e).max(1)).clamp(20, 300) } else { 3 };
+    for _ in 0..tries {
+        let degs = rng.sample_distinct(nb_min, v + e);
+        let xp: Vec<u8> = degs[..v].iter().map(|d| gf.alpha_pow(*d)).collect();
+        let xq: Vec<u8> = degs[v..].iter().map(|d| gf.alpha_pow(*d)).collect();
+        // z solves sum_q z_q X_q^j = 0 for j in rows
+        let mut z = vec![0u8; e];
+        if m == e {
+            let mut a = vec![0u8; m * e];
+            for (r, j) in rows.iter().enumerate() {
+                for c in 0..e {
+                    a[r * e + c] = gf_pow(gf, xq[c], *j);
+                }
+            }
+            match gf.kernel_vector(&a, m, e) {
+                Some(x) => z = x,
+                None => continue,
+            }
+        } else {
+            for zq in z.iter_mut().skip(m) {
+                *zq = rng.nonzero_byte();
+            }
+            let mut a = vec![0u8; m * m];
+            let mut rhs = vec![0u8; m];
+            for (r, j) in rows.iter().enumerate() {
+                for c in 0..m {
+                    a[r * m + c] = gf_pow(gf, xq[c], *j);
+                }
+                let mut acc = 0u8;
+                for c in m..e {
+                    acc ^= gf.mul(z[c], gf_pow(gf, xq[c], *j));
+                }
+                rhs[r] = acc;
+            }
+            match gf.solve(&a, &rhs, m) {
+                Some(sol) => z[..m].copy_from_slice(&sol),
+                None => continue,
+            }
+        }
+        if z.iter().filter(|x| **x != 0).count() < 2 {
+            continue;
+        }
+        // y_q = z_q / C(X_q), C(x) = prod (x + X_p)
+        let pos_src = s.block_positions(b_src);
+        let pos_dst = s.block_positions(b_dst);
+        if s.blocks > 1 {
+            for d in &degs[..v] {
+                let p = pos_src[pos_src.len() - 1 - *d];
+                faults.push(Fault::new("cw_foreign", Op::CwXor { pos: p as u32, mask: rng.nonzero_byte() }));
+            }
+        }
+        for (qi, d) in degs[v..].iter().enumerate() {
+            if z[qi] == 0 {
+                continue;
+            }
+            let mut cx = 1u8;
+            for x in &xp {
+                cx = gf.mul(cx, xq[qi] ^ *x);
+            }
+            let y = gf.div(z[qi], cx);
+            if y == 0 {
+                continue;
+            }
+            let p = pos_dst[pos_dst.len() - 1 - *d];
+            faults.push(Fault::new("cw_foreign", Op::CwXor { pos: p as u32, mask: y }));
+        }
+        return true;
+    }
+    false
+}
+
 /// Between two codewords. B is the codeword that differs from the sent codeword A in a few data codewords of one
 /// block (and therefore in nearly all EC codewords of that block: a minimum-distance neighbour when it is one data
 /// codeword). The medium overwrites a SUBSET of the positions where A and B differ with B's values: within the
@@ -1727,6 +1855,7 @@ fn geometry_fault(rng: &mut Rng, s: &SizeInfo, faults: &mut Vec<Fault>) {
                 Fault::new("geo_width_skew", Op::GeoWidth { w: nw as u32 })
             }
         }
+        8 if rng.chance(1, 2) => Fault::new("geo_frame", Op::GeoFrame { n: rng.range(1, 3) as u32, fill: rng.below(3) as u32 }),
         8 => Fault::new("geo_empty", Op::GeoEmpty),
         9 | 10 => Fault::new("geo_rot", Op::GeoRot { q: rng.range(1, 3) as u8 }),
         11 => Fault::new("geo_mirror", Op::GeoMirror),
@@ -2415,7 +2544,9 @@ fn gen_c03_faults(ctx: &Ctx, rng: &mut Rng, s: &SizeInfo, faults_out: &mut Vec<F
                 None => burst_faults(rng, s, Some(s.t()), &mut faults),
             }
         }
+        13 if rng.chance(1, 5) && foreign_recurrence_faults(ctx, rng, s, &mut faults) => {}
         13 => {
+            faults.clear();
             let b = rng.below(s.blocks);
             if !phantom_faults(ctx, rng, s, b, true, &mut faults) {
                 let w = bounded_weights(rng, s);
